@@ -14,6 +14,8 @@
 (*   1 reg a (unsigned)  2 reg b (unsigned)  3 reg c (signed)  4 reg d      *)
 (*   (signed)  5 cst 0   6 cst 1   7 cst 2^W-1 (unsigned)  8 cst -1 (signed)*)
 (*   9 cst 2^(W-1) (unsigned)  10 cst W-1   11 cst W  (both unsigned, mod 2^W)  *)
+(*   12 e[1:W+1] declared signed (e: unsigned register of W+2 bits)          *)
+(*   13 f[1:W+1] declared unsigned (f: signed register of W+2 bits)          *)
 (***************************************************************************)
 EXTENDS Integers, Sequences, TLC, Json
 
@@ -28,7 +30,7 @@ CONSTANTS Widths,    \* set of leaf widths; one is chosen per behaviour
 VARIABLES W, pool, h, emitted
 vars == <<W, pool, h, emitted>>
 
-NLeaves == 11
+NLeaves == 13
 BinArith == {"+", "-", "*", "&", "|", "^"}
 BinCmp   == {"==", "!=", "<", "<=", ">", ">=", "<.", ">=."}
 BinWide  == {"**", "/", "%"}
@@ -88,7 +90,7 @@ Simp == \E i \in Pick1((NLeaves + 1)..N), bs \in {0, 1}, wd \in {0, 1} :
          /\ Push(pool[i], [act |-> "simplify", i |-> i, bitslice |-> bs, widening |-> wd])
 
 (* pickle round trip of a handle *)
-Pick == \E i \in Pick1((NLeaves + 1)..N) :
+Pick == \E i \in Pick1(12..N) :
          /\ "pickle" \in Ops /\ Uses({i})
          /\ Push(pool[i], [act |-> "pickle", i |-> i])
 
